@@ -96,7 +96,10 @@ def _run(ck: core.Check, pool):
         if rng.random() < 0.5:
             fault = (rng.choice(P.FAULT_KINDS), rng.randrange(10), rng.randrange(len(L.EXC_CLASSES)))
             script = (lambda i, m, f=fault: P.make_fault(f[0], m, f[2]) if i == f[1] else None)
-        h = P.record_history(steps, sel, script, rng.choice(["init", "run"]))
+        at = rng.choice(["init", "run"])
+        h = P.record_history(steps, sel, script, at)
+        for key, what in h.get("failures", []):  # kept_value_conforms, judged on the real run alone
+            ck.failure(key, what, {"level": "hist", "steps": steps, "sel": sel, "fault": fault, "at": at})
         if "skip" in h:
             skipped += 1
             continue
@@ -182,7 +185,23 @@ def _run(ck: core.Check, pool):
 
 
 def replay(ck: core.Check, doc) -> bool:
+    if doc["case"].get("level") == "node":  # kept_value_conforms witnesses need a scripted backend (shared with C15)
+        from harness.props import c15
+
+        return c15.replay(ck, doc)
     _init_worker()
+    if doc["case"].get("level") == "hist":
+        from harness import lib_vpprog as P
+
+        c = doc["case"]
+        f = c["fault"]
+        script = (lambda i, m: P.make_fault(f[0], m, f[2]) if i == f[1] else None) if f else None
+        h = P.record_history(c["steps"], c["sel"], script, c.get("at", "run"))
+        for key, what in h.get("failures", []):
+            print(f"{key}: {what}")
+        if "raised" in h:
+            print("program raised:", h["raised"])
+        return bool(h.get("failures"))
     r = _task(doc["case"])
     if r.get("infra"):
         print("cannot judge:", r["infra"])
